@@ -130,6 +130,17 @@ Theorem C08_token_ranges_in_source : forall dl src pt s e,
   (s <= e /\ e <= List.length src)%nat.
 Proof. exact token_ranges_in_source. Qed.
 
+(* every iteration consumes at least one byte: the token stream is finite and the model never
+   runs out of fuel (ErrPanic is what the model would report for it); the nested scanners'
+   results do not depend on their fuel either *)
+Theorem C08_lexer_total : forall dl src,
+  validate dl = ROk tt -> lex_ptoks dl src <> RErr ErrPanic.
+Proof. exact lex_ptoks_total. Qed.
+
+Theorem C08_scan_inside_fuel_irrelevant : forall f1 f2 e s,
+  (List.length s < f1)%nat -> (List.length s < f2)%nat -> scan_inside f1 e s = scan_inside f2 e s.
+Proof. exact scan_inside_fuel. Qed.
+
 Print Assumptions C08_validate_spec.
 Print Assumptions C08_lex_print.
 Print Assumptions C08_ws_filter_spec.
@@ -139,6 +150,7 @@ Print Assumptions C08_no_start_delimiter_renders_itself.
 Print Assumptions C08_delimiter_respelling_invariant.
 Print Assumptions C08_inside_ends_by_item.
 Print Assumptions C08_spans_are_linecol.
+Print Assumptions C08_lexer_total.
 Print Assumptions C08_token_ranges_in_source.
 
 (* ---------------------------------------------------------------- non-vacuity *)
